@@ -4,7 +4,7 @@
    generators with every per-type state component; MergeSources at declaration level).
    Only statements here; proofs in Proofs/GenProofs.v, GenBaseProofs.v, GenResetProofs.v. *)
 From Coq Require Import List String Bool Permutation.
-From Shoot Require Import Model.Gen Proofs.GenBaseProofs Proofs.GenProofs Proofs.GenResetProofs Proofs.GenNewProofs Proofs.GenWitnessProofs.
+From Shoot Require Import Model.Gen Proofs.GenBaseProofs Proofs.GenProofs Proofs.GenResetProofs Proofs.GenNewProofs Proofs.GenSeqProofs Proofs.GenSigmaProofs Proofs.GenPermProofs Proofs.GenWitnessProofs.
 Import ListNotations.
 Local Open Scope string_scope.
 
@@ -161,6 +161,111 @@ Theorem C08_new_all_in_one_is_concatenation : forall c (cT : string -> cmd) hw o
 Proof. exact new_aio_is_concatenation. Qed.
 Print Assumptions C08_new_all_in_one_is_concatenation.
 
+(* ... and for new -getset WITH embedding, no guard on the package (overlay = on-disk view): the all-in-one file
+   is, declaration for declaration, what -type=T produces one type at a time when every run finds the files written
+   by the earlier ones in the directory (seq_files: run T on the directory d, write its file under the name the
+   overlay uses, continue) *)
+Theorem C08_new_all_in_one_is_sequential : forall c (cT : string -> cmd) hw disk fmap o st st' types sm,
+  c_getset c = true ->
+  (forall T, c_types (cT T) = [T] /\ c_file (cT T) = "" /\ c_getset (cT T) = c_getset c /\ c_json (cT T) = c_json c /\ c_opt (cT T) = c_opt c) ->
+  separate c = false ->
+  confirm_types (list_types_of CNew) c o (mk_view hw disk []) = Some (types, fmap) ->
+  NoDup (map (nm c hw fmap) types) ->
+  generate (new_make c) nrender (list_types_of CNew) c o hw disk st = Some sm ->
+  exists fs, seq_files new_make nrender c cT hw fmap st' types disk = Some fs /\
+    match sm with
+    | [] => fs = []
+    | [(n, m)] =>
+        a_decls m = flat_map a_decls fs /\ a_imports m = dedup (flat_map a_imports fs) /\
+        a_stray m = flat_map (fun f => strays (a_decls f)) fs /\ n = nm c hw fmap ""
+    | _ => False
+    end.
+Proof. exact new_aio_is_sequential. Qed.
+Print Assumptions C08_new_all_in_one_is_sequential.
+
+(* one step of that sequence IS the run `shoot <cmd> -type=T` in a directory holding d, whenever that run names its
+   file like the overlay entry (-file=f with T declared in f) *)
+Theorem C08_single_run_is_step :
+  forall (St Data : Type) (mk : cmd -> St -> pview -> string -> mres Data St) (render : St -> Data -> afile) lt c cT,
+  (forall T, c_types (cT T) = [T]) -> (forall T, c_file (cT T) = "") ->
+  forall hw fmap T o d st,
+    file_name (cT T) (all_in_one_file (cT T) (mk_view hw d [])) [(T, get_go_file o (mk_view hw d []) T)] T = nm c hw fmap T ->
+    generate (mk (cT T)) render lt (cT T) o hw d st =
+    match single_step mk render cT hw st T d with
+    | None => None
+    | Some None => Some []
+    | Some (Some f) => Some [(nm c hw fmap T, f)]
+    end.
+Proof. exact @single_run_any. Qed.
+Print Assumptions C08_single_run_is_step.
+
+(* ---- second sentence of C08: the order of the names in -type=A,B changes no file content.  The header quotes the
+   command line, so it differs by construction: equal names, imports, declarations and free comments (nb).  For every
+   generator that does not read generated files (enum, rest; new when no struct embeds a struct), any oracle, any
+   directory content; the file names of the listed types must be distinct (two types whose names differ only by case
+   share one output file). *)
+Theorem C08_permutation_changes_no_content :
+  forall (St Data : Type) (mk : cmd -> St -> pview -> string -> mres Data St) (render : St -> Data -> afile),
+  (forall c st1 st2 v T, same_out render (mk c st1 v T) (mk c st2 v T)) ->
+  forall hw, (forall c, blind_at (hand_of hw) (mk c)) ->
+  forall lt c c' o disk st st',
+    specified c = true -> specified c' = true ->
+    Permutation (c_types c) (c_types c') -> c_file c = c_file c' -> c_sub c = c_sub c' ->
+    c_star c = false -> c_star c' = false ->
+    (forall T st0 v, same_body render render (mk c st0 v T) (mk c' st0 v T)) ->
+    NoDup (map (out_name hw c (spec_fmap c o (mk_view hw disk []))) (c_types c)) ->
+    match generate (mk c) render lt c o hw disk st, generate (mk c') render lt c' o hw disk st' with
+    | Some sm, Some sm' => map nb (listing sm) = map nb (listing sm')
+    | None, None => True
+    | _, _ => False
+    end.
+Proof. exact @permutation_changes_no_content. Qed.
+Print Assumptions C08_permutation_changes_no_content.
+
+Theorem C08_enum_permutation : forall c c' hw o disk st st',
+  specified c = true -> specified c' = true ->
+  Permutation (c_types c) (c_types c') -> c_file c = c_file c' -> c_sub c = c_sub c' ->
+  c_star c = false -> c_star c' = false -> c_ejson c = c_ejson c' -> c_etext c = c_etext c' ->
+  NoDup (map (out_name hw c (spec_fmap c o (mk_view hw disk []))) (c_types c)) ->
+  match generate (enum_make c) enum_render (list_types_of CEnum) c o hw disk st,
+        generate (enum_make c') enum_render (list_types_of CEnum) c' o hw disk st' with
+  | Some sm, Some sm' => map nb (listing sm) = map nb (listing sm')
+  | None, None => True
+  | _, _ => False
+  end.
+Proof. exact enum_permutation. Qed.
+Print Assumptions C08_enum_permutation.
+
+Theorem C08_rest_permutation : forall ro c c' hw o disk st st',
+  specified c = true -> specified c' = true ->
+  Permutation (c_types c) (c_types c') -> c_file c = c_file c' -> c_sub c = c_sub c' ->
+  c_star c = false -> c_star c' = false ->
+  NoDup (map (out_name hw c (spec_fmap c o (mk_view hw disk []))) (c_types c)) ->
+  match generate (rest_make ro c) rrender (list_types_of CRest) c o hw disk st,
+        generate (rest_make ro c') rrender (list_types_of CRest) c' o hw disk st' with
+  | Some sm, Some sm' => map nb (listing sm) = map nb (listing sm')
+  | None, None => True
+  | _, _ => False
+  end.
+Proof. exact rest_permutation. Qed.
+Print Assumptions C08_rest_permutation.
+
+Theorem C08_new_permutation : forall c c' hw o disk st st',
+  no_embedding (hand_of hw) ->
+  specified c = true -> specified c' = true ->
+  Permutation (c_types c) (c_types c') -> c_file c = c_file c' -> c_sub c = c_sub c' ->
+  c_star c = false -> c_star c' = false ->
+  c_getset c = c_getset c' -> c_json c = c_json c' -> c_opt c = c_opt c' ->
+  NoDup (map (out_name hw c (spec_fmap c o (mk_view hw disk []))) (c_types c)) ->
+  match generate (new_make c) nrender (list_types_of CNew) c o hw disk st,
+        generate (new_make c') nrender (list_types_of CNew) c' o hw disk st' with
+  | Some sm, Some sm' => map nb (listing sm) = map nb (listing sm')
+  | None, None => True
+  | _, _ => False
+  end.
+Proof. exact new_permutation. Qed.
+Print Assumptions C08_new_permutation.
+
 (* the generator objects may start in any state: the whole run is the same *)
 Theorem C08_run_state_free_new : forall c o hw disk st,
   generate (new_make c) (fun _ d => new_render d) (list_types_of CNew) c o hw disk st =
@@ -179,6 +284,12 @@ Theorem C08_refuted_K_embed_order :
   toks_of_files (run_generate id_oracle (mkpkg hw_eo) [] c_eo_sb) <> toks_of_files (run_generate id_oracle (mkpkg hw_eo) [] c_eo_bs).
 Proof. exact embed_order_permutation_matters. Qed.
 Print Assumptions C08_refuted_K_embed_order.
+
+Theorem C08_refuted_K_filename_case_clash :
+  map fst (toks_of_files (run_generate id_oracle (mkpkg hw_cc) [] c_cc_1)) = ["x.shootnew.foo.go"] /\
+  toks_of_files (run_generate id_oracle (mkpkg hw_cc) [] c_cc_1) <> toks_of_files (run_generate id_oracle (mkpkg hw_cc) [] c_cc_2).
+Proof. exact case_clash_permutation_matters. Qed.
+Print Assumptions C08_refuted_K_filename_case_clash.
 
 Theorem C08_refuted_K_merge_stray_comment : option_map a_stray (merge [mk_file "x" two_decls]) = Some ["init"].
 Proof. exact merge_stray_comment. Qed.
@@ -210,3 +321,24 @@ Example C08_example_single_commands : forall T,
   c_types (ex_cmd_single T) = [T] /\ c_file (ex_cmd_single T) = "" /\ c_getset (ex_cmd_single T) = c_getset ex_cmd_file /\
   c_json (ex_cmd_single T) = c_json ex_cmd_file /\ c_opt (ex_cmd_single T) = c_opt ex_cmd_file.
 Proof. intros. repeat split. Qed.
+
+(* the embedding witness of K_embed_order satisfies the hypotheses of C08_new_all_in_one_is_sequential *)
+Example C08_example_sequential_hypotheses :
+  c_getset c_eo = true /\ separate c_eo = false /\
+  confirm_types (list_types_of CNew) c_eo id_oracle (mk_view hw_eo [] []) = Some (["Son"; "Base"], []) /\
+  map (nm c_eo hw_eo []) ["Son"; "Base"] = ["f.shootnew.son.go"; "f.shootnew.base.go"].
+Proof. repeat split; reflexivity. Qed.
+
+Example C08_example_single_names_like_overlay :
+  file_name (ex_cmd_single "Son") (all_in_one_file (ex_cmd_single "Son") (mk_view hw_eo [] []))
+            [("Son", get_go_file id_oracle (mk_view hw_eo [] []) "Son")] "Son" = nm c_eo hw_eo [] "Son".
+Proof. reflexivity. Qed.
+
+(* the permutation theorem applies to -type=A,B / -type=B,A on the two-struct package *)
+Definition ex_cmd_ab : cmd := cmd_new "shoot new -getset -type=A,B" ["A"; "B"] true false.
+Definition ex_cmd_ba : cmd := cmd_new "shoot new -getset -type=B,A" ["B"; "A"] true false.
+Example C08_example_permutation_hypotheses :
+  specified ex_cmd_ab = true /\ specified ex_cmd_ba = true /\ Permutation (c_types ex_cmd_ab) (c_types ex_cmd_ba) /\
+  map (out_name hw_ab ex_cmd_ab (spec_fmap ex_cmd_ab id_oracle (mk_view hw_ab [] []))) (c_types ex_cmd_ab) =
+    ["a.shootnew.a.go"; "a.shootnew.b.go"].
+Proof. split; [reflexivity|]. split; [reflexivity|]. split; [apply perm_swap | reflexivity]. Qed.
